@@ -49,6 +49,7 @@ type fault struct {
 	K    int64  // byte offset (cut, write-error) or unexpected packet kind index
 	Reset bool
 	Mask  int
+	Hold  bool // hold the gated goroutine until the injected packet has been consumed (steers the schedule only)
 }
 
 func (f *fault) String() string {
@@ -61,6 +62,9 @@ func (f *fault) String() string {
 	}
 	if f.Kind == "corrupt" {
 		s += fmt.Sprintf("@byte%d^%02x", f.K, f.Mask)
+	}
+	if f.Hold {
+		s += "+hold"
 	}
 	if f.Kind == "cut" || f.Kind == "write-error" || f.Kind == "exception+write-error" || f.Kind == "stall" {
 		s += fmt.Sprintf("@byte%d", f.K)
@@ -146,6 +150,14 @@ func runScenarioWith(sc scn, seed int64, f *fault, readTimeout time.Duration, ba
 			sim.Conn.Locked(func() { sim.Srv.Aborted = true })
 			sim.Conn.DropQueuedAfterCurrent()
 			sim.Conn.Push(simnet.Item{Data: simnet.PacketException(exc)})
+			if f.Hold {
+				// after-quiescence release: keep the gated goroutine here until the receiver has
+				// consumed the exception and the cancellation has had time to propagate
+				for i := 0; i < 200 && sim.Conn.QueueLen() > 0; i++ {
+					time.Sleep(time.Millisecond)
+				}
+				time.Sleep(3 * time.Millisecond)
+			}
 		case "unknown-packet":
 			sim.Conn.PushFront(simnet.Item{Data: []byte{byte(40 + f.K%80), 0, 1, 2}})
 		case "unexpected-packet":
